@@ -239,7 +239,9 @@ class t2grid(object):
             dupblks = set([blk.name for blk in self.blocklist]) & \
                       set([blk.name for blk in subgrid.blocklist])
             if len(dupblks) == 0:
-                result = self + subgrid
+                from copy import deepcopy
+                # (adding grids shares their blocks, which are changed below:)
+                result = deepcopy(self) + deepcopy(subgrid)
                 connection.block = [result.block[blk.name] for blk in connection.block]
                 result.add_connection(connection)
                 result.block[hostblock.name].volume -= subvol # remove subgrid volume from host block
